@@ -538,10 +538,33 @@ pub fn run_case(tape: &mut Tape, _tier: Tier, _p: &CaseParams) -> CaseOutcome {
     &without(&loose(incremental), &part_orphans),
     &without(&loose(at_once), &part_orphans),
   ) {
+    // dependencies booked for a package by a module that was visited from
+    // the manifest's embedded module information and whose content load then
+    // failed: whether that module is visited at all depends on the route by
+    // which it is first reached (the embedded-info shortcut exists on the
+    // jsr: route only) - the bookkeeping side of the C01 orphan finding
+    let visited_then_failed = path.starts_with("/packages/deps/")
+      && [incremental, at_once].iter().any(|o| {
+        loose(o)["slots"].as_object().is_some_and(|m| {
+          m.iter().any(|(k, v)| {
+            k.starts_with(crate::world::REGISTRY)
+              && v.get("error").is_some()
+              && world.descs.get(k).is_some_and(|d| {
+                d.items.iter().any(|i| {
+                  i.spec.starts_with("jsr:") || i.spec.starts_with("npm:")
+                })
+              })
+          })
+        })
+      });
     out.violation(
       "C19",
       "partition-equals-at-once",
-      format!("partition:{}", classify_path(&path)),
+      if visited_then_failed {
+        "partition:package-deps:importer-became-error".to_string()
+      } else {
+        format!("partition:{}", classify_path(&path))
+      },
       format!(
         "graph after successive builds {:?} differs from building {:?} at once at {}: {} vs {}",
         parts,
